@@ -14,7 +14,7 @@ Not decided: value equality of field contents, container element round trips.
 """
 import facts as F
 from cfg import CFG, ccp_reachable
-from flow import Flow, call_sites, arg_local, last_seg
+from flow import Flow, call_sites, arg_local, last_seg, PASS_LAST
 from tables import str_arms, exclusive_regions, enum_switches, region_aggregates
 from sym import PathSym, enum_paths, feasible
 import re
@@ -782,10 +782,38 @@ def rule_accessors(ctx, f):
     ctx.floor("C15-TABLE-acc", nw, 5, "variants of FontData the writer names a /Subtype for")
 
 
+def rule_refs_and_skips(ctx, f):
+    ctx.rule("C15-REF", "a typed reference is read with the object number AND the generation it has in the file (the writer emits both); the derived writers leave "
+             "out a field only when its value is Null")
+    rb = f.impl_method("object::Object", "object::Ref<T>", "from_primitive")
+    if rb is None:
+        ctx.lost("C15-REF", "<Ref<T> as Object>::from_primitive")
+    else:
+        fl = Flow(rb)
+        names = {last_seg(F.callee_name(t)) for bi, t in F.calls(rb)}
+        fs = set()
+        ats = fl.origins(0, fields=fs, passthrough=PASS_LAST + ("new", "from_id", "into_reference"))
+        part = fs & {"id", "gen"}
+        ctx.check("into_reference" in names and not part and "from_id" not in names, "C15-REF", "Ref<T>::from_primitive#whole-reference", "the reference reader keeps only a part of the "
+                  "reference it is given (%s): a reference with a non-zero generation is read as another reference and written back as `n 0 R`" % (sorted(part) or "from_id"), rb["span"],
+                  detail="Ref::new(p.into_reference()?)")
+    # derived writers: the skip test of a field is a test of the Null variant and nothing else
+    n = 0
+    for b in f.bodies.values():
+        if not (b.get("impl") and b["impl"].get("trait") in ("object::ObjectWrite", "object::ToDict") and "derive(ObjectWrite)" in (b.get("mac") or [])):
+            continue
+        bad = sorted({last_seg(F.callee_name(t)) for bi, t in F.calls(b)} & {"is_empty", "len", "is_null", "eq", "ne", "is_none", "is_some"})
+        n += 1
+        ctx.check(not bad, "C15-REF", b["impl"]["self"] + "#skips-null-only", "the derived writer of %s decides with %s whether a field is written: a value the reader requires (an empty "
+                  "dictionary, say) is left out and the written form does not read back" % (b["impl"]["self"], ", ".join(bad)), b["span"], detail="a field is skipped only when it wrote Null")
+    ctx.floor("C15-REF", n, 40, "derived writer bodies")
+
+
 def run(ctx):
     f = F.load("default")
     ctx.count("bodies", len(f.bodies))
     rule_keys(ctx, f)
+    rule_refs_and_skips(ctx, f)
     rule_enums(ctx, f)
     rule_hand(ctx, f)
     rule_variants(ctx, f)
